@@ -1,80 +1,23 @@
-import GoSQLXModel.Model.ExprParse
+import GoSQLXModel.Model.ExprGrammar
 /-!
 # Every model expression, written with the parentheses precedence requires, parses back to itself
 
-Reference grammar `G` (atoms, binary operators at their levels, NOT), `render k g` = the token list of `g` as an
-operand of level `k` (parenthesised exactly when its own level is lower), `need k g` = the parser depth that reading it
-costs.  `parse_render`: for every `g`, every continuation `X` that starts no operator, and enough room under the depth
-limit, `pExpr (render 1 g ++ X) = ok g X` — precedence, left associativity, parentheses overriding, every written
-operator and atom in the tree with its written spelling, nothing else.
+`parse_render`: for every well-formed `g` of the reference grammar (Model/ExprGrammar.lean), every continuation `X`
+that starts no operator, and enough room under the depth limit, `pExpr (render 1 g ++ X) = ok g X` — precedence, left
+associativity, parentheses overriding, predicates, calls, every written operator and atom in the tree with its written
+spelling, nothing else.
 
-Proof shape (one lemma per level in continuation-passing form, generic lifting between levels): DESIGN Appendix D.
+Proof shape: one unfolding lemma per branch of the parser ("eventually": for all sufficient fuel), one lemma per
+level of the ladder in continuation-passing form (`Lem`), generic lifting between levels, one case lemma per
+constructor of the grammar, assembled by structural recursion over the (mutual) grammar.
 -/
 namespace GoSQLXModel.ExprParse
 
 /-! ## "eventually": fuel-free statements -/
 def Ev (P : Nat → Res) (r : Res) : Prop := ∃ f0, ∀ f, f0 ≤ f → P f = r
+def EvL (P : Nat → ResL) (r : ResL) : Prop := ∃ f0, ∀ f, f0 ≤ f → P f = r
 
-/-! ## reference grammar -/
-inductive Op where | or | and | cmp | cat | plus | minus | star | div | mod
-  deriving DecidableEq, Repr
-
-def Op.tk : Op → TK
-  | .or => .or | .and => .and | .cmp => .cmp | .cat => .cat | .plus => .plus | .minus => .minus
-  | .star => .star | .div => .div | .mod => .mod
-
-def Op.prec : Op → Nat
-  | .or => 1 | .and => 2 | .cmp => 4 | .cat => 5 | .plus => 6 | .minus => 6 | .star => 7 | .div => 7 | .mod => 7
-
-inductive Atom where | ident (n : String) | num (v : String) | str (v : String) | bool (v : String) | null (lit : String)
-  deriving DecidableEq, Repr
-
-def Atom.tok : Atom → PTok
-  | .ident n => ⟨.ident, n⟩ | .num v => ⟨.num, v⟩ | .str v => ⟨.str, v⟩ | .bool v => ⟨.bool, v⟩ | .null l => ⟨.null, l⟩
-def Atom.ex : Atom → Ex
-  | .ident n => .ident n | .num v => .num v | .str v => .str v | .bool v => .bool v | .null _ => .null
-
-inductive G where
-  | atom (a : Atom)
-  | bin (op : Op) (lit : String) (l r : G)
-  | not (lit : String) (e : G)
-
-def G.toEx : G → Ex
-  | .atom a => a.ex
-  | .bin _ lit l r => .bin lit l.toEx r.toEx
-  | .not _ e => .not e.toEx
-
-def G.prec : G → Nat
-  | .atom _ => 8
-  | .bin op _ _ _ => op.prec
-  | .not _ _ => 3
-
-/-- operand levels of a binary operator: (left, right) -/
-def Op.sides : Op → Nat × Nat
-  | .or => (1, 2) | .and => (2, 3) | .cmp => (5, 5) | .cat => (5, 6)
-  | .plus => (6, 7) | .minus => (6, 7) | .star => (7, 8) | .div => (7, 8) | .mod => (7, 8)
-
-def lp : PTok := ⟨.lparen, "("⟩
-def rp : PTok := ⟨.rparen, ")"⟩
-
-def render : Nat → G → List PTok
-  | _, .atom a => [a.tok]
-  | k, .bin op lit l r =>
-    let b := render op.sides.1 l ++ ⟨op.tk, lit⟩ :: render op.sides.2 r
-    if op.prec < k then lp :: (b ++ [rp]) else b
-  | k, .not lit e =>
-    let b := ⟨.not, lit⟩ :: render 3 e
-    if 3 < k then lp :: (b ++ [rp]) else b
-
-/-- parser depth consumed by reading `render k g` -/
-def need : Nat → G → Nat
-  | _, .atom _ => 0
-  | k, .bin op _ l r =>
-    let b := max (need op.sides.1 l) (need op.sides.2 r)
-    if op.prec < k then b + 1 else b
-  | k, .not _ e =>
-    let b := need 3 e + 1
-    if 3 < k then b + 1 else b
+theorem ev_const (r : Res) : Ev (fun _ => r) r := ⟨0, fun _ _ => rfl⟩
 
 /-! ## one unfolding lemma per branch -/
 theorem ev_pExpr {d ts R} (hd : d + 1 ≤ maxDepth) (h : Ev (fun f => pOr f (d + 1) ts) R) : Ev (fun f => pExpr f d ts) R := by
@@ -99,6 +42,8 @@ theorem ev_lOr_step {d l lit ts r rest R} (h1 : Ev (fun f => pAnd f d ts) (.ok r
 
 /-- the head of `X` is not of class `k` -/
 def HeadNot (X : List PTok) (k : TK) : Prop := ∀ t rest, X = t :: rest → t.k ≠ k
+/-- the head of `X` is spelled like none of the operator words recognised by literal -/
+def HeadPlain (X : List PTok) : Prop := ∀ t rest, X = t :: rest → plainLit t.lit = true
 
 theorem ev_lOr_stop {d l ts} (h : HeadNot ts .or) : Ev (fun f => lOr f d l ts) (.ok l ts) := by
   refine ⟨1, fun f hf => ?_⟩
@@ -132,33 +77,165 @@ theorem ev_lAnd_stop {d l ts} (h : HeadNot ts .and) : Ev (fun f => lAnd f d l ts
     have hk : k ≠ .and := h _ _ rfl
     cases k <;> simp_all [lAnd]
 
-theorem ev_pCmp_cmp {d ts l lit ts' r rest} (h1 : Ev (fun f => pCat f d ts) (.ok l (⟨.cmp, lit⟩ :: ts')))
-    (h2 : Ev (fun f => pCat f d ts') (.ok r rest)) : Ev (fun f => pCmp f d ts) (.ok (.bin lit l r) rest) := by
+/-! ### the comparison level -/
+theorem ev_pCmp {d ts l rest R} (h1 : Ev (fun f => pCat f d ts) (.ok l rest)) (h2 : Ev (fun f => pTail f d l rest) R) :
+    Ev (fun f => pCmp f d ts) R := by
   obtain ⟨a, ha⟩ := h1; obtain ⟨b, hb⟩ := h2
   refine ⟨max a b + 1, fun f hf => ?_⟩
   obtain ⟨g, rfl⟩ : ∃ g, f = g + 1 := ⟨f - 1, by omega⟩
   simp only [pCmp, ha g (by omega), hb g (by omega)]
 
-/-- the continuation neither is a comparison nor makes the real parser continue in an unmodelled way -/
-def CmpStop (X : List PTok) : Prop :=
-  HeadNot X .cmp ∧ HeadNot X .other ∧ HeadNot X .not ∧ HeadNot X .cont
+theorem notPrefix_head {t : PTok} {rest : List PTok} (h : t.k ≠ .not) : notPrefix (t :: rest) = false := by
+  obtain ⟨k, lit⟩ := t
+  cases k <;> simp_all [notPrefix]
 
-theorem ev_pCmp_plain {d ts l rest} (h1 : Ev (fun f => pCat f d ts) (.ok l rest)) (h : CmpStop rest) :
-    Ev (fun f => pCmp f d ts) (.ok l rest) := by
-  obtain ⟨a, ha⟩ := h1
+theorem ev_pTail_plainhead {d l t rest R} (h : t.k ≠ .not) (h2 : Ev (fun f => pPred f d false l (t :: rest)) R) :
+    Ev (fun f => pTail f d l (t :: rest)) R := by
+  obtain ⟨a, ha⟩ := h2
   refine ⟨a + 1, fun f hf => ?_⟩
   obtain ⟨g, rfl⟩ : ∃ g, f = g + 1 := ⟨f - 1, by omega⟩
-  simp only [pCmp, ha g (by omega)]
-  cases rest with
-  | nil => rfl
-  | cons t rest' =>
-    obtain ⟨k, lit⟩ := t
-    have hk1 : k ≠ .cmp := h.1 _ _ rfl
-    have hk2 : k ≠ .other := h.2.1 _ _ rfl
-    have hk3 : k ≠ .not := h.2.2.1 _ _ rfl
-    have hk4 : k ≠ .cont := h.2.2.2 _ _ rfl
-    cases k <;> simp_all [continuesUnmodelled]
+  simp only [pTail, notPrefix_head h, Bool.false_eq_true, if_false, ha g (by omega)]
 
+theorem ev_pTail_nil {d l} : Ev (fun f => pTail f d l []) (.ok l []) := by
+  refine ⟨2, fun f hf => ?_⟩
+  obtain ⟨g, rfl⟩ : ∃ g, f = g + 2 := ⟨f - 2, by omega⟩
+  simp [pTail, notPrefix, pPred]
+
+theorem ev_pTail_neg {d l nl t2 rest R} (h : notLookahead t2 = true) (h2 : Ev (fun f => pPred f d true l (t2 :: rest)) R) :
+    Ev (fun f => pTail f d l (⟨.not, nl⟩ :: t2 :: rest)) R := by
+  obtain ⟨a, ha⟩ := h2
+  refine ⟨a + 1, fun f hf => ?_⟩
+  obtain ⟨g, rfl⟩ : ∃ g, f = g + 1 := ⟨f - 1, by omega⟩
+  simp only [pTail, notPrefix, h, if_true, List.tail_cons, ha g (by omega)]
+
+theorem plain_parts {s : String} (h : plainLit s = true) :
+    isWord s "ILIKE" = false ∧ isWord s "REGEXP" = false ∧ isWord s "RLIKE" = false := by
+  simp only [plainLit, Bool.not_eq_true', Bool.or_eq_false_iff] at h
+  exact ⟨h.1.1, h.1.2, h.2⟩
+
+theorem isLikeOp_false {t : PTok} (hk : t.k ≠ .like) (hp : plainLit t.lit = true) : isLikeOp t = false := by
+  simp [isLikeOp, hk, (plain_parts hp).1]
+theorem isRegexpOp_false {t : PTok} (hp : plainLit t.lit = true) : isRegexpOp t = false := by
+  simp [isRegexpOp, (plain_parts hp).2.1, (plain_parts hp).2.2]
+
+/-- the continuation is none of the things parseComparisonExpression acts on, nor makes the real parser continue in an
+    unmodelled way -/
+def CmpStop (X : List PTok) : Prop :=
+  HeadNot X .cmp ∧ HeadNot X .other ∧ HeadNot X .not ∧ HeadNot X .cont ∧
+  HeadNot X .between ∧ HeadNot X .like ∧ HeadNot X .in_ ∧ HeadNot X .is ∧ HeadPlain X
+
+theorem ev_pTail_stop {d l rest} (h : CmpStop rest) : Ev (fun f => pTail f d l rest) (.ok l rest) := by
+  cases rest with
+  | nil => exact ev_pTail_nil
+  | cons t rest' =>
+    obtain ⟨h1, h2, h3, h4, h5, h6, h7, h8, h9⟩ := h
+    have hp := h9 _ _ rfl
+    refine ev_pTail_plainhead (h3 _ _ rfl) ⟨1, fun f hf => ?_⟩
+    obtain ⟨g, rfl⟩ : ∃ g, f = g + 1 := ⟨f - 1, by omega⟩
+    have k1 := h1 _ _ rfl; have k2 := h2 _ _ rfl; have k4 := h4 _ _ rfl
+    have k5 := h5 _ _ rfl; have k6 := h6 _ _ rfl; have k7 := h7 _ _ rfl; have k8 := h8 _ _ rfl
+    simp [pPred, k1, k2, k4, k5, k7, k8, isLikeOp_false k6 hp, isRegexpOp_false hp, continuesUnmodelled]
+
+theorem ev_pTail_cmp {d l lit ts' r rest} (hp : plainLit lit = true) (h : Ev (fun f => pCat f d ts') (.ok r rest)) :
+    Ev (fun f => pTail f d l (⟨.cmp, lit⟩ :: ts')) (.ok (.bin lit l r) rest) := by
+  obtain ⟨a, ha⟩ := h
+  refine ev_pTail_plainhead (by simp) ⟨a + 1, fun f hf => ?_⟩
+  obtain ⟨g, rfl⟩ : ∃ g, f = g + 1 := ⟨f - 1, by omega⟩
+  have h1 : isLikeOp ⟨.cmp, lit⟩ = false := isLikeOp_false (by simp) hp
+  have h2 : isRegexpOp ⟨.cmp, lit⟩ = false := isRegexpOp_false hp
+  simp [pPred, h1, h2, ha g (by omega)]
+
+theorem ev_pTail_is {d l lit ts} (hp : plainLit lit = true) :
+    Ev (fun f => pTail f d l (⟨.is, lit⟩ :: ts)) (pIs l ts) := by
+  refine ev_pTail_plainhead (by simp) ⟨1, fun f hf => ?_⟩
+  obtain ⟨g, rfl⟩ : ∃ g, f = g + 1 := ⟨f - 1, by omega⟩
+  have h1 : isLikeOp ⟨.is, lit⟩ = false := isLikeOp_false (by simp) hp
+  have h2 : isRegexpOp ⟨.is, lit⟩ = false := isRegexpOp_false hp
+  simp [pPred, h1, h2]
+
+/-- what a (possibly negated) predicate keyword must satisfy for NOT to be taken as its prefix -/
+def NegOK (neg : Option String) (kw : PTok) : Prop := neg = none ∨ notLookahead kw = true
+
+/-- the tail after the left operand when a predicate keyword `kw` follows, possibly after NOT -/
+theorem ev_pTail_pred {d l neg kw rest R} (hk : kw.k ≠ .not) (hn : NegOK neg kw)
+    (h : Ev (fun f => pPred f d neg.isSome l (kw :: rest)) R) :
+    Ev (fun f => pTail f d l (negToks neg ++ kw :: rest)) R := by
+  cases neg with
+  | none => simpa [negToks] using ev_pTail_plainhead hk (by simpa using h)
+  | some nl =>
+    have hl : notLookahead kw = true := by
+      rcases hn with h0 | h0
+      · cases h0
+      · exact h0
+    simpa [negToks] using ev_pTail_neg (nl := nl) hl (by simpa using h)
+
+theorem ev_pPred_between {d neg l lit ts R} (h : Ev (fun f => pBetween f d neg l ts) R) :
+    Ev (fun f => pPred f d neg l (⟨.between, lit⟩ :: ts)) R := by
+  obtain ⟨a, ha⟩ := h
+  refine ⟨a + 1, fun f hf => ?_⟩
+  obtain ⟨g, rfl⟩ : ∃ g, f = g + 1 := ⟨f - 1, by omega⟩
+  simp [pPred, ha g (by omega)]
+
+theorem ev_pPred_like {d neg l} {t : PTok} {ts R} (hk : t.k ≠ .between) (hl : isLikeOp t = true)
+    (h : Ev (fun f => pLike f d neg t.lit l ts) R) : Ev (fun f => pPred f d neg l (t :: ts)) R := by
+  obtain ⟨a, ha⟩ := h
+  refine ⟨a + 1, fun f hf => ?_⟩
+  obtain ⟨g, rfl⟩ : ∃ g, f = g + 1 := ⟨f - 1, by omega⟩
+  simp [pPred, hk, hl, ha g (by omega)]
+
+theorem ev_pPred_in {d neg l lit ts R} (hp : plainLit lit = true) (h : Ev (fun f => pIn f d neg l ts) R) :
+    Ev (fun f => pPred f d neg l (⟨.in_, lit⟩ :: ts)) R := by
+  obtain ⟨a, ha⟩ := h
+  refine ⟨a + 1, fun f hf => ?_⟩
+  obtain ⟨g, rfl⟩ : ∃ g, f = g + 1 := ⟨f - 1, by omega⟩
+  have h1 : isLikeOp ⟨.in_, lit⟩ = false := isLikeOp_false (by simp) hp
+  have h2 : isRegexpOp ⟨.in_, lit⟩ = false := isRegexpOp_false hp
+  simp [pPred, h1, h2, ha g (by omega)]
+
+theorem ev_pBetween {d neg l ts lo alit r2 hi rest} (h1 : Ev (fun f => pCat f d ts) (.ok lo (⟨.and, alit⟩ :: r2)))
+    (h2 : Ev (fun f => pCat f d r2) (.ok hi rest)) :
+    Ev (fun f => pBetween f d neg l ts) (.ok (.between neg l lo hi) rest) := by
+  obtain ⟨a, ha⟩ := h1; obtain ⟨b, hb⟩ := h2
+  refine ⟨max a b + 1, fun f hf => ?_⟩
+  obtain ⟨g, rfl⟩ : ∃ g, f = g + 1 := ⟨f - 1, by omega⟩
+  simp only [pBetween, ha g (by omega), hb g (by omega)]
+
+theorem ev_pLike {d neg op l ts pat rest} (h : Ev (fun f => pPrim f d ts) (.ok pat rest)) :
+    Ev (fun f => pLike f d neg op l ts) (.ok (.like neg op l pat) rest) := by
+  obtain ⟨a, ha⟩ := h
+  refine ⟨a + 1, fun f hf => ?_⟩
+  obtain ⟨g, rfl⟩ : ∃ g, f = g + 1 := ⟨f - 1, by omega⟩
+  simp only [pLike, ha g (by omega)]
+
+theorem ev_pIn {d neg l plit r1 items rest} (hh : HeadNot r1 .other)
+    (h : EvL (fun f => pInList f d r1) (.ok items rest)) :
+    Ev (fun f => pIn f d neg l (⟨.lparen, plit⟩ :: r1)) (.ok (.inlist neg l items) rest) := by
+  obtain ⟨a, ha⟩ := h
+  refine ⟨a + 1, fun f hf => ?_⟩
+  obtain ⟨g, rfl⟩ : ∃ g, f = g + 1 := ⟨f - 1, by omega⟩
+  cases r1 with
+  | nil => simp only [pIn, ha g (by omega)]
+  | cons t r1' =>
+    obtain ⟨k, lit⟩ := t
+    have hk : k ≠ .other := hh _ _ rfl
+    cases k <;> first | exact absurd rfl hk | simp only [pIn, ha g (by omega)]
+
+theorem evL_pInList_last {d ts v clit rest} (h : Ev (fun f => pExpr f d ts) (.ok v (⟨.rparen, clit⟩ :: rest))) :
+    EvL (fun f => pInList f d ts) (.ok (.cons v .nil) rest) := by
+  obtain ⟨a, ha⟩ := h
+  refine ⟨a + 1, fun f hf => ?_⟩
+  obtain ⟨g, rfl⟩ : ∃ g, f = g + 1 := ⟨f - 1, by omega⟩
+  simp only [pInList, ha g (by omega)]
+
+theorem evL_pInList_cons {d ts v clit r vs rest} (h1 : Ev (fun f => pExpr f d ts) (.ok v (⟨.comma, clit⟩ :: r)))
+    (h2 : EvL (fun f => pInList f d r) (.ok vs rest)) :
+    EvL (fun f => pInList f d ts) (.ok (.cons v vs) rest) := by
+  obtain ⟨a, ha⟩ := h1; obtain ⟨b, hb⟩ := h2
+  refine ⟨max a b + 1, fun f hf => ?_⟩
+  obtain ⟨g, rfl⟩ : ∃ g, f = g + 1 := ⟨f - 1, by omega⟩
+  simp only [pInList, ha g (by omega), hb g (by omega)]
+
+/-! ### below the comparison level -/
 theorem ev_pCat {d ts l r R} (h1 : Ev (fun f => pAdd f d ts) (.ok l r)) (h2 : Ev (fun f => lCat f d l r) R) :
     Ev (fun f => pCat f d ts) R := by
   obtain ⟨a, ha⟩ := h1; obtain ⟨b, hb⟩ := h2
@@ -246,8 +323,9 @@ theorem ev_lMul_stop {d l ts} (h1 : HeadNot ts .star) (h2 : HeadNot ts .div) (h3
     have hk3 : k ≠ .mod := h3 _ _ rfl
     cases k <;> simp_all [lMul]
 
-/-- the continuation does not extend a primary -/
-def PrimStop (X : List PTok) : Prop := HeadNot X .cont ∧ HeadNot X .lparen
+/-! ### primaries -/
+/-- the continuation does not extend a primary (nor a call) -/
+def PrimStop (X : List PTok) : Prop := HeadNot X .cont ∧ HeadNot X .lparen ∧ HeadNot X .other
 
 theorem afterPrimary_ok {e : Ex} {X : List PTok} (h : HeadNot X .cont) : afterPrimary e X = .ok e X := by
   cases X with
@@ -256,6 +334,14 @@ theorem afterPrimary_ok {e : Ex} {X : List PTok} (h : HeadNot X .cont) : afterPr
     obtain ⟨k, lit⟩ := t
     have hk : k ≠ .cont := h _ _ rfl
     cases k <;> simp_all [afterPrimary]
+
+theorem afterCall_ok {n : String} {args : ExL} {X : List PTok} (hn : isWord n "MATCH" = false) (h : PrimStop X) :
+    afterCall n args X = .ok (.call n args) X := by
+  cases X with
+  | nil => rfl
+  | cons t X' =>
+    have hk : t.k ≠ .other := h.2.2 _ _ rfl
+    simp [afterCall, hk, hn, afterPrimary_ok h.1]
 
 theorem ev_pPrim_atom {d : Nat} {a : Atom} {X : List PTok} (h : PrimStop X) :
     Ev (fun f => pPrim f d (a.tok :: X)) (.ok a.ex X) := by
@@ -269,7 +355,7 @@ theorem ev_pPrim_atom {d : Nat} {a : Atom} {X : List PTok} (h : PrimStop X) :
     | cons t X' =>
       obtain ⟨k, lit⟩ := t
       have hk1 : k ≠ .cont := h.1 _ _ rfl
-      have hk2 : k ≠ .lparen := h.2 _ _ rfl
+      have hk2 : k ≠ .lparen := h.2.1 _ _ rfl
       cases k <;> simp_all [pPrim, afterPrimary]
   | num v => simp only [pPrim, Atom.tok, Atom.ex]; exact afterPrimary_ok h.1
   | str v => simp only [pPrim, Atom.tok, Atom.ex]; exact afterPrimary_ok h.1
@@ -303,10 +389,54 @@ theorem ev_pPrim_not {d lit ts e rest} (hh : HeadNot ts .other) (hd : d + 1 ≤ 
     have hk : k ≠ .other := hh _ _ rfl
     cases k <;> first | exact absurd rfl hk | simp only [pPrim, hd', if_false, hp]
 
+theorem ev_pPrim_call0 {d n l1 l2 X} : Ev (fun f => pPrim f d (⟨.ident, n⟩ :: ⟨.lparen, l1⟩ :: ⟨.rparen, l2⟩ :: X)) (afterCall n .nil X) := by
+  refine ⟨1, fun f hf => ?_⟩
+  obtain ⟨g, rfl⟩ : ∃ g, f = g + 1 := ⟨f - 1, by omega⟩
+  simp only [pPrim]
+
+theorem ev_pPrim_call {d n l1 r1 args r2} (hh : HeadNot r1 .rparen) (h : EvL (fun f => pArgs f d r1) (.ok args r2)) :
+    Ev (fun f => pPrim f d (⟨.ident, n⟩ :: ⟨.lparen, l1⟩ :: r1)) (afterCall n args r2) := by
+  obtain ⟨a, ha⟩ := h
+  refine ⟨a + 1, fun f hf => ?_⟩
+  obtain ⟨g, rfl⟩ : ∃ g, f = g + 1 := ⟨f - 1, by omega⟩
+  cases r1 with
+  | nil => simp only [pPrim, ha g (by omega)]
+  | cons t r1' =>
+    obtain ⟨k, lit⟩ := t
+    have hk : k ≠ .rparen := hh _ _ rfl
+    cases k <;> first | exact absurd rfl hk | simp only [pPrim, ha g (by omega)]
+
+theorem evL_pArgs_last {d ts v clit rest} (hh : HeadNot ts .other) (h : Ev (fun f => pExpr f d ts) (.ok v (⟨.rparen, clit⟩ :: rest))) :
+    EvL (fun f => pArgs f d ts) (.ok (.cons v .nil) rest) := by
+  obtain ⟨a, ha⟩ := h
+  refine ⟨a + 1, fun f hf => ?_⟩
+  obtain ⟨g, rfl⟩ : ∃ g, f = g + 1 := ⟨f - 1, by omega⟩
+  cases ts with
+  | nil => simp only [pArgs, ha g (by omega)]
+  | cons t ts' =>
+    obtain ⟨k, lit⟩ := t
+    have hk : k ≠ .other := hh _ _ rfl
+    cases k <;> first | exact absurd rfl hk | simp only [pArgs, ha g (by omega)]
+
+theorem evL_pArgs_cons {d ts v clit r vs rest} (hh : HeadNot ts .other) (h1 : Ev (fun f => pExpr f d ts) (.ok v (⟨.comma, clit⟩ :: r)))
+    (h2 : EvL (fun f => pArgs f d r) (.ok vs rest)) :
+    EvL (fun f => pArgs f d ts) (.ok (.cons v vs) rest) := by
+  obtain ⟨a, ha⟩ := h1; obtain ⟨b, hb⟩ := h2
+  refine ⟨max a b + 1, fun f hf => ?_⟩
+  obtain ⟨g, rfl⟩ : ∃ g, f = g + 1 := ⟨f - 1, by omega⟩
+  cases ts with
+  | nil => simp only [pArgs, ha g (by omega), hb g (by omega)]
+  | cons t ts' =>
+    obtain ⟨k, lit⟩ := t
+    have hk : k ≠ .other := hh _ _ rfl
+    cases k <;> first | exact absurd rfl hk | simp only [pArgs, ha g (by omega), hb g (by omega)]
+
 /-! ## continuation predicates -/
 theorem headNot_cons {t : PTok} {rest : List PTok} {k : TK} (h : t.k ≠ k) : HeadNot (t :: rest) k := by
   intro t' rest' e; injection e with e1 _; subst e1; exact h
 theorem headNot_nil {k : TK} : HeadNot [] k := by intro t rest e; cases e
+theorem headPlain_cons {t : PTok} {rest : List PTok} (h : plainLit t.lit = true) : HeadPlain (t :: rest) := by
+  intro t' rest' e; injection e with e1 _; subst e1; exact h
 
 def N7 (X : List PTok) : Prop := HeadNot X .star ∧ HeadNot X .div ∧ HeadNot X .mod
 def N6 (X : List PTok) : Prop := N7 X ∧ HeadNot X .plus ∧ HeadNot X .minus
@@ -315,16 +445,32 @@ def N4 (X : List PTok) : Prop := N5 X ∧ CmpStop X
 def N2 (X : List PTok) : Prop := N4 X ∧ HeadNot X .and
 def N1 (X : List PTok) : Prop := N2 X ∧ HeadNot X .or
 
-/-- every class-test on a continuation that starts with a token of known class -/
-theorem classes_of_cons (t : PTok) (rest : List PTok) :
-    (t.k ≠ .cont → t.k ≠ .lparen → PrimStop (t :: rest)) ∧
-    (t.k ≠ .star → t.k ≠ .div → t.k ≠ .mod → N7 (t :: rest)) :=
-  ⟨fun a b => ⟨headNot_cons a, headNot_cons b⟩, fun a b c => ⟨headNot_cons a, headNot_cons b, headNot_cons c⟩⟩
+/-- a token that is no operand-level operator and extends no primary stops every level below the comparison -/
+theorem stops_of_class {t : PTok} (rest : List PTok)
+    (h : t.k ≠ .cont ∧ t.k ≠ .lparen ∧ t.k ≠ .other ∧ t.k ≠ .star ∧ t.k ≠ .div ∧ t.k ≠ .mod ∧ t.k ≠ .plus ∧ t.k ≠ .minus ∧ t.k ≠ .cat) :
+    PrimStop (t :: rest) ∧ N5 (t :: rest) := by
+  obtain ⟨a, b, c, d, e, f, g, i, j⟩ := h
+  exact ⟨⟨headNot_cons a, headNot_cons b, headNot_cons c⟩,
+    ⟨⟨⟨headNot_cons d, headNot_cons e, headNot_cons f⟩, headNot_cons g, headNot_cons i⟩, headNot_cons j⟩⟩
+
+/-- … and, when it is none of the comparison-level keywords either and plainly spelled, the comparison level too -/
+theorem cmpStop_of_class {t : PTok} (rest : List PTok)
+    (h : t.k ≠ .cmp ∧ t.k ≠ .other ∧ t.k ≠ .not ∧ t.k ≠ .cont ∧ t.k ≠ .between ∧ t.k ≠ .like ∧ t.k ≠ .in_ ∧ t.k ≠ .is)
+    (hp : plainLit t.lit = true) : CmpStop (t :: rest) := by
+  obtain ⟨a, b, c, d, e, f, g, i⟩ := h
+  exact ⟨headNot_cons a, headNot_cons b, headNot_cons c, headNot_cons d, headNot_cons e, headNot_cons f, headNot_cons g,
+    headNot_cons i, headPlain_cons hp⟩
 
 /-! ## render and need at the levels below / above the tree's own level -/
+theorem prec_le (g : G) : 1 ≤ g.prec ∧ g.prec ≤ 8 := by
+  cases g with
+  | bin op lit l r => cases op <;> simp [G.prec, Op.prec]
+  | _ => simp [G.prec]
+
 theorem render_low (g : G) {k : Nat} (h : k ≤ g.prec) : render k g = render 1 g := by
   cases g with
   | atom a => simp [render]
+  | call n args => simp [render]
   | bin op lit l r =>
     have h1 : ¬ (op.prec < k) := by simp only [G.prec] at h; omega
     have h2 : ¬ (op.prec < 1) := by cases op <;> simp [Op.prec]
@@ -332,9 +478,23 @@ theorem render_low (g : G) {k : Nat} (h : k ≤ g.prec) : render k g = render 1 
   | not lit e =>
     have h1 : ¬ (3 < k) := by simp only [G.prec] at h; omega
     simp only [render, h1, if_false]; simp
+  | isnull a b c e =>
+    have h1 : ¬ (4 < k) := by simp only [G.prec] at h; omega
+    simp only [render, h1, if_false]; simp
+  | between a b c e lo hi =>
+    have h1 : ¬ (4 < k) := by simp only [G.prec] at h; omega
+    simp only [render, h1, if_false]; simp
+  | like a b e p =>
+    have h1 : ¬ (4 < k) := by simp only [G.prec] at h; omega
+    simp only [render, h1, if_false]; simp
+  | inlist a b e f r =>
+    have h1 : ¬ (4 < k) := by simp only [G.prec] at h; omega
+    simp only [render, h1, if_false]; simp
+
 theorem render_high (g : G) {k : Nat} (h : g.prec < k) (hk : k ≤ 8) : render k g = lp :: (render 1 g ++ [rp]) := by
   cases g with
   | atom a => simp only [G.prec] at h; omega
+  | call n args => simp only [G.prec] at h; omega
   | bin op lit l r =>
     have h1 : op.prec < k := by simpa only [G.prec] using h
     have h2 : ¬ (op.prec < 1) := by cases op <;> simp [Op.prec]
@@ -342,10 +502,23 @@ theorem render_high (g : G) {k : Nat} (h : g.prec < k) (hk : k ≤ 8) : render k
   | not lit e =>
     have h1 : 3 < k := by simpa only [G.prec] using h
     simp only [render, h1, if_true]; simp
+  | isnull a b c e =>
+    have h1 : 4 < k := by simpa only [G.prec] using h
+    simp only [render, h1, if_true]; simp
+  | between a b c e lo hi =>
+    have h1 : 4 < k := by simpa only [G.prec] using h
+    simp only [render, h1, if_true]; simp
+  | like a b e p =>
+    have h1 : 4 < k := by simpa only [G.prec] using h
+    simp only [render, h1, if_true]; simp
+  | inlist a b e f r =>
+    have h1 : 4 < k := by simpa only [G.prec] using h
+    simp only [render, h1, if_true]; simp
 
 theorem need_low (g : G) {k : Nat} (h : k ≤ g.prec) : need k g = need 1 g := by
   cases g with
   | atom a => simp [need]
+  | call n args => simp [need]
   | bin op lit l r =>
     have h1 : ¬ (op.prec < k) := by simp only [G.prec] at h; omega
     have h2 : ¬ (op.prec < 1) := by cases op <;> simp [Op.prec]
@@ -353,15 +526,41 @@ theorem need_low (g : G) {k : Nat} (h : k ≤ g.prec) : need k g = need 1 g := b
   | not lit e =>
     have h1 : ¬ (3 < k) := by simp only [G.prec] at h; omega
     simp only [need, h1, if_false]; simp
+  | isnull a b c e =>
+    have h1 : ¬ (4 < k) := by simp only [G.prec] at h; omega
+    simp only [need, h1, if_false]; simp
+  | between a b c e lo hi =>
+    have h1 : ¬ (4 < k) := by simp only [G.prec] at h; omega
+    simp only [need, h1, if_false]; simp
+  | like a b e p =>
+    have h1 : ¬ (4 < k) := by simp only [G.prec] at h; omega
+    simp only [need, h1, if_false]; simp
+  | inlist a b e f r =>
+    have h1 : ¬ (4 < k) := by simp only [G.prec] at h; omega
+    simp only [need, h1, if_false]; simp
+
 theorem need_high (g : G) {k : Nat} (h : g.prec < k) (hk : k ≤ 8) : need k g = need 1 g + 1 := by
   cases g with
   | atom a => simp only [G.prec] at h; omega
+  | call n args => simp only [G.prec] at h; omega
   | bin op lit l r =>
     have h1 : op.prec < k := by simpa only [G.prec] using h
     have h2 : ¬ (op.prec < 1) := by cases op <;> simp [Op.prec]
     simp only [need, h1, h2, if_true, if_false]
   | not lit e =>
     have h1 : 3 < k := by simpa only [G.prec] using h
+    simp only [need, h1, if_true]; simp
+  | isnull a b c e =>
+    have h1 : 4 < k := by simpa only [G.prec] using h
+    simp only [need, h1, if_true]; simp
+  | between a b c e lo hi =>
+    have h1 : 4 < k := by simpa only [G.prec] using h
+    simp only [need, h1, if_true]; simp
+  | like a b e p =>
+    have h1 : 4 < k := by simpa only [G.prec] using h
+    simp only [need, h1, if_true]; simp
+  | inlist a b e f r =>
+    have h1 : 4 < k := by simpa only [G.prec] using h
     simp only [need, h1, if_true]; simp
 
 /-- two levels on the same side of the tree's own level render (and cost) alike -/
@@ -371,49 +570,67 @@ theorem req {g : G} {a b : Nat} (ha : a ≤ 8) (hb : b ≤ 8)
   · rw [render_low g h1, render_low g h2, need_low g h1, need_low g h2]; exact ⟨rfl, rfl⟩
   · rw [render_high g h1 ha, render_high g h2 hb, need_high g h1 ha, need_high g h2 hb]; exact ⟨rfl, rfl⟩
 
-/-- a rendered tree never starts with a token of class `other`, `cont` … (it starts with an atom, `(` or NOT) -/
-theorem render_head (k : Nat) (g : G) (X : List PTok) :
-    ∃ t rest, render k g ++ X = t :: rest ∧ (t.k = .ident ∨ t.k = .num ∨ t.k = .str ∨ t.k = .bool ∨ t.k = .null ∨ t.k = .lparen ∨ t.k = .not) := by
-  induction g generalizing k X with
-  | atom a => exact ⟨a.tok, X, by simp [render], by cases a <;> simp [Atom.tok]⟩
-  | bin op lit l r ihl ihr =>
-    simp only [render]
-    split
-    · exact ⟨lp, _, rfl, by simp [lp]⟩
-    · obtain ⟨t, rest, e, ht⟩ := ihl op.sides.1 (⟨op.tk, lit⟩ :: render op.sides.2 r ++ X)
-      exact ⟨t, rest, by simpa [List.append_assoc] using e, ht⟩
-  | not lit e ih =>
-    simp only [render]
-    split
-    · exact ⟨lp, _, rfl, by simp [lp]⟩
-    · exact ⟨⟨.not, lit⟩, _, rfl, by simp⟩
+/-- a rendered tree starts with an atom, `(` or NOT -/
+def StartTok (t : PTok) : Prop :=
+  t.k = .ident ∨ t.k = .num ∨ t.k = .str ∨ t.k = .bool ∨ t.k = .null ∨ t.k = .lparen ∨ t.k = .not
 
-theorem render_head_not_other (k : Nat) (g : G) (X : List PTok) : HeadNot (render k g ++ X) .other := by
-  obtain ⟨t, rest, e, ht⟩ := render_head k g X
+theorem render_head : (g : G) → (k : Nat) → (X : List PTok) → ∃ t rest, render k g ++ X = t :: rest ∧ StartTok t
+  | .atom a, k, X => ⟨a.tok, X, by simp [render], by cases a <;> simp [Atom.tok, StartTok]⟩
+  | .call n args, k, X => ⟨⟨.ident, n⟩, lp :: (renderArgs args ++ [rp]) ++ X, by simp [render], by simp [StartTok]⟩
+  | .bin op lit l r, k, X => by
+    simp only [render]
+    split
+    · exact ⟨lp, _, rfl, by simp [lp, StartTok]⟩
+    · obtain ⟨t, rest, e, ht⟩ := render_head l op.sides.1 (⟨op.tk, lit⟩ :: render op.sides.2 r ++ X)
+      exact ⟨t, rest, by simpa [List.append_assoc] using e, ht⟩
+  | .not lit e, k, X => by
+    simp only [render]
+    split
+    · exact ⟨lp, _, rfl, by simp [lp, StartTok]⟩
+    · exact ⟨⟨.not, lit⟩, _, rfl, by simp [StartTok]⟩
+  | .isnull a b c e, k, X => by
+    simp only [render]
+    split
+    · exact ⟨lp, _, rfl, by simp [lp, StartTok]⟩
+    · obtain ⟨t, rest, e', ht⟩ := render_head e 5 (⟨.is, a⟩ :: (negToks b ++ [⟨.null, c⟩]) ++ X)
+      exact ⟨t, rest, by simpa [List.append_assoc] using e', ht⟩
+  | .between a b c e lo hi, k, X => by
+    simp only [render]
+    split
+    · exact ⟨lp, _, rfl, by simp [lp, StartTok]⟩
+    · obtain ⟨t, rest, e', ht⟩ := render_head e 5 ((negToks a ++ ⟨.between, b⟩ :: (render 5 lo ++ ⟨.and, c⟩ :: render 5 hi)) ++ X)
+      exact ⟨t, rest, by simpa [List.append_assoc] using e', ht⟩
+  | .like a b e p, k, X => by
+    simp only [render]
+    split
+    · exact ⟨lp, _, rfl, by simp [lp, StartTok]⟩
+    · obtain ⟨t, rest, e', ht⟩ := render_head e 5 ((negToks a ++ b :: render 8 p) ++ X)
+      exact ⟨t, rest, by simpa [List.append_assoc] using e', ht⟩
+  | .inlist a b e f r, k, X => by
+    simp only [render]
+    split
+    · exact ⟨lp, _, rfl, by simp [lp, StartTok]⟩
+    · obtain ⟨t, rest, e', ht⟩ := render_head e 5 ((negToks a ++ ⟨.in_, b⟩ :: lp :: (render 1 f ++ (renderMore r ++ [rp]))) ++ X)
+      exact ⟨t, rest, by simpa [List.append_assoc] using e', ht⟩
+
+theorem render_head_not {c : TK} (hc : c ≠ .ident ∧ c ≠ .num ∧ c ≠ .str ∧ c ≠ .bool ∧ c ≠ .null ∧ c ≠ .lparen ∧ c ≠ .not)
+    (k : Nat) (g : G) (X : List PTok) : HeadNot (render k g ++ X) c := by
+  obtain ⟨t, rest, e, ht⟩ := render_head g k X
   intro t' rest' e'
   rw [e] at e'; injection e' with e1 _; subst e1
-  rcases ht with h | h | h | h | h | h | h <;> simp [h]
+  obtain ⟨c1, c2, c3, c4, c5, c6, c7⟩ := hc
+  rcases ht with h | h | h | h | h | h | h <;> (rw [h]; first | exact c1.symm | exact c2.symm | exact c3.symm | exact c4.symm | exact c5.symm | exact c6.symm | exact c7.symm)
+
+theorem render_head_not_other (k : Nat) (g : G) (X : List PTok) : HeadNot (render k g ++ X) .other :=
+  render_head_not (by decide) k g X
+theorem render_head_not_rparen (k : Nat) (g : G) (X : List PTok) : HeadNot (render k g ++ X) .rparen :=
+  render_head_not (by decide) k g X
 
 theorem render_ne_nil (k : Nat) (g : G) (X : List PTok) : render k g ++ X ≠ [] := by
-  obtain ⟨t, rest, e, _⟩ := render_head k g X
+  obtain ⟨t, rest, e, _⟩ := render_head g k X
   rw [e]; simp
 
 /-! ## the level lemmas, in continuation-passing form -/
-structure Lem (g : G) : Prop where
-  P8 : ∀ d X, need 8 g + d ≤ maxDepth → PrimStop X → Ev (fun f => pPrim f d (render 8 g ++ X)) (.ok g.toEx X)
-  M7 : ∀ d X R, need 7 g + d ≤ maxDepth → PrimStop X → Ev (fun f => lMul f d g.toEx X) R →
-        Ev (fun f => pMul f d (render 7 g ++ X)) R
-  A6 : ∀ d X R, need 6 g + d ≤ maxDepth → PrimStop X → N7 X → Ev (fun f => lAdd f d g.toEx X) R →
-        Ev (fun f => pAdd f d (render 6 g ++ X)) R
-  K5 : ∀ d X R, need 5 g + d ≤ maxDepth → PrimStop X → N6 X → Ev (fun f => lCat f d g.toEx X) R →
-        Ev (fun f => pCat f d (render 5 g ++ X)) R
-  C4 : ∀ d X, need 4 g + d ≤ maxDepth → PrimStop X → N4 X → Ev (fun f => pCmp f d (render 4 g ++ X)) (.ok g.toEx X)
-  C3 : ∀ d X, need 3 g + d ≤ maxDepth → PrimStop X → N4 X → Ev (fun f => pCmp f d (render 3 g ++ X)) (.ok g.toEx X)
-  A2 : ∀ d X R, need 2 g + d ≤ maxDepth → PrimStop X → N4 X → Ev (fun f => lAnd f d g.toEx X) R →
-        Ev (fun f => pAnd f d (render 2 g ++ X)) R
-  A1 : ∀ d X R, need 1 g + d ≤ maxDepth → PrimStop X → N2 X → Ev (fun f => lOr f d g.toEx X) R →
-        Ev (fun f => pOr f d (render 1 g ++ X)) R
-
 abbrev P8T (g : G) := ∀ d X, need 8 g + d ≤ maxDepth → PrimStop X → Ev (fun f => pPrim f d (render 8 g ++ X)) (.ok g.toEx X)
 abbrev M7T (g : G) := ∀ d X R, need 7 g + d ≤ maxDepth → PrimStop X → Ev (fun f => lMul f d g.toEx X) R →
         Ev (fun f => pMul f d (render 7 g ++ X)) R
@@ -427,6 +644,20 @@ abbrev A2T (g : G) := ∀ d X R, need 2 g + d ≤ maxDepth → PrimStop X → N4
         Ev (fun f => pAnd f d (render 2 g ++ X)) R
 abbrev A1T (g : G) := ∀ d X R, need 1 g + d ≤ maxDepth → PrimStop X → N2 X → Ev (fun f => lOr f d g.toEx X) R →
         Ev (fun f => pOr f d (render 1 g ++ X)) R
+
+structure Lem (g : G) : Prop where
+  P8 : P8T g
+  M7 : M7T g
+  A6 : A6T g
+  K5 : K5T g
+  C4 : CT 4 g
+  C3 : CT 3 g
+  A2 : A2T g
+  A1 : A1T g
+
+def LemL : GL → Prop
+  | .nil => True
+  | .cons g rest => Lem g ∧ LemL rest
 
 /-! ### generic lifting between adjacent levels -/
 theorem lift_M7 {g : G} (hr : render 7 g = render 8 g ∧ need 7 g = need 8 g) (P8 : P8T g) : M7T g := by
@@ -444,7 +675,7 @@ theorem lift_K5 {g : G} (hr : render 5 g = render 6 g ∧ need 5 g = need 6 g) (
 theorem lift_C {g : G} {k : Nat} (hr : render k g = render 5 g ∧ need k g = need 5 g) (K5 : K5T g) : CT k g := by
   intro d X hd hp hn
   rw [hr.1]
-  exact ev_pCmp_plain (K5 d X _ (by rw [← hr.2]; exact hd) hp hn.1.1 (ev_lCat_stop hn.1.2)) hn.2
+  exact ev_pCmp (K5 d X _ (by rw [← hr.2]; exact hd) hp hn.1.1 (ev_lCat_stop hn.1.2)) (ev_pTail_stop hn.2)
 
 theorem lift_A2 {g : G} (hr : render 2 g = render 3 g ∧ need 2 g = need 3 g) (C3 : CT 3 g) : A2T g := by
   intro d X R hd hp hn h
@@ -454,19 +685,39 @@ theorem lift_A1 {g : G} (hr : render 1 g = render 2 g ∧ need 1 g = need 2 g) (
   intro d X R hd hp hn h
   rw [hr.1]; exact ev_pOr (A2 d X _ (by rw [← hr.2]; exact hd) hp hn.1 (ev_lAnd_stop hn.2)) h
 
-theorem rp_stops (X : List PTok) : PrimStop (rp :: X) ∧ N2 (rp :: X) ∧ HeadNot (rp :: X) .or := by
-  have h : ∀ k : TK, k ≠ .rparen → HeadNot (rp :: X) k := fun k hk => headNot_cons (by simpa [rp] using fun e => hk e.symm)
-  refine ⟨⟨h _ (by decide), h _ (by decide)⟩, ⟨⟨⟨⟨⟨h _ (by decide), h _ (by decide), h _ (by decide)⟩, h _ (by decide), h _ (by decide)⟩,
-    h _ (by decide)⟩, ⟨h _ (by decide), h _ (by decide), h _ (by decide), h _ (by decide)⟩⟩, h _ (by decide)⟩, h _ (by decide)⟩
+/-- a closing parenthesis or a comma ends every level -/
+theorem closer_stops (t : PTok) (hk : t.k = .rparen ∨ t.k = .comma) (hp : plainLit t.lit = true) (X : List PTok) :
+    PrimStop (t :: X) ∧ N2 (t :: X) ∧ HeadNot (t :: X) .or := by
+  have h : ∀ k : TK, k ≠ .rparen → k ≠ .comma → t.k ≠ k := by
+    intro k h1 h2 e; rcases hk with h | h <;> rw [h] at e <;> first | exact h1 e.symm | exact h2 e.symm
+  have s := stops_of_class (t := t) X ⟨h _ (by decide) (by decide), h _ (by decide) (by decide), h _ (by decide) (by decide),
+    h _ (by decide) (by decide), h _ (by decide) (by decide), h _ (by decide) (by decide), h _ (by decide) (by decide),
+    h _ (by decide) (by decide), h _ (by decide) (by decide)⟩
+  have c := cmpStop_of_class (t := t) X ⟨h _ (by decide) (by decide), h _ (by decide) (by decide), h _ (by decide) (by decide),
+    h _ (by decide) (by decide), h _ (by decide) (by decide), h _ (by decide) (by decide), h _ (by decide) (by decide),
+    h _ (by decide) (by decide)⟩ hp
+  exact ⟨s.1, ⟨⟨s.2, c⟩, headNot_cons (h _ (by decide) (by decide))⟩, headNot_cons (h _ (by decide) (by decide))⟩
+
+theorem rp_plain : plainLit rp.lit = true := by decide +kernel
+theorem comma_plain : plainLit comma.lit = true := by decide +kernel
+
+theorem rp_stops (X : List PTok) : PrimStop (rp :: X) ∧ N2 (rp :: X) ∧ HeadNot (rp :: X) .or :=
+  closer_stops rp (Or.inl rfl) rp_plain X
+theorem comma_stops (X : List PTok) : PrimStop (comma :: X) ∧ N2 (comma :: X) ∧ HeadNot (comma :: X) .or :=
+  closer_stops comma (Or.inr rfl) comma_plain X
+
+/-- an item of a parenthesised list (or the inside of a parenthesis): read by parseExpression up to the closer -/
+theorem item_expr {g : G} (A1 : A1T g) (d : Nat) (t : PTok) (hk : t.k = .rparen ∨ t.k = .comma) (hp : plainLit t.lit = true)
+    (X : List PTok) (hd : need 1 g + 1 + d ≤ maxDepth) :
+    Ev (fun f => pExpr f d (render 1 g ++ (t :: X))) (.ok g.toEx (t :: X)) := by
+  obtain ⟨s1, s2, s3⟩ := closer_stops t hk hp X
+  exact ev_pExpr (by omega) (A1 (d + 1) (t :: X) _ (by omega) s1 s2 (ev_lOr_stop s3))
 
 theorem paren_P8 {g : G} (hp : g.prec < 8) (A1 : A1T g) : P8T g := by
   intro d X hd hX
   rw [render_high g hp (Nat.le_refl _)]
   rw [need_high g hp (Nat.le_refl _)] at hd
-  obtain ⟨s1, s2, s3⟩ := rp_stops X
-  have h1 : Ev (fun f => pOr f (d + 1) (render 1 g ++ (rp :: X))) (.ok g.toEx (rp :: X)) :=
-    A1 (d + 1) (rp :: X) _ (by omega) s1 s2 (ev_lOr_stop s3)
-  have h2 : Ev (fun f => pExpr f d (render 1 g ++ (rp :: X))) (.ok g.toEx (rp :: X)) := ev_pExpr (by omega) h1
+  have h2 := item_expr A1 d rp (Or.inl rfl) rp_plain X (by omega)
   have h3 := ev_pPrim_paren (render_head_not_other 1 g (rp :: X)) h2 hX.1
   simpa [List.append_assoc] using h3
 
@@ -494,6 +745,25 @@ theorem down_A2 {g : G} (hp : 3 ≤ g.prec) (C3 : CT 3 g) : A2T g :=
 theorem down_A1 {g : G} (hp : 2 ≤ g.prec) (A2 : A2T g) : A1T g :=
   lift_A1 (req (by omega) (by omega) (Or.inl ⟨by omega, hp⟩)) A2
 
+/-- a tree whose own level is the primary level: everything follows from `P8` -/
+theorem lem_of_P8 {g : G} (hp : g.prec = 8) (P8 : P8T g) : Lem g := by
+  have M7 := lift_M7 (g := g) (req (by omega) (by omega) (Or.inl ⟨by omega, by omega⟩)) P8
+  have A6 := down_A6 (by omega) M7
+  have K5 := down_K5 (by omega) A6
+  have C4 := down_C 4 (by omega) (by omega) K5
+  have C3 := down_C 3 (by omega) (by omega) K5
+  have A2 := down_A2 (by omega) C3
+  have A1 := down_A1 (by omega) A2
+  exact ⟨P8, M7, A6, K5, C4, C3, A2, A1⟩
+
+/-- a tree whose own level is the comparison level: everything follows from `C3` and `C4` -/
+theorem lem_of_C {g : G} (hp : g.prec = 4) (C3 : CT 3 g) (C4 : CT 4 g) : Lem g := by
+  have A2 := down_A2 (by omega) C3
+  have A1 := down_A1 (by omega) A2
+  obtain ⟨P8, M7, A6, K5, _, _, _⟩ := up_from_A1 (by omega) A1
+  exact ⟨P8, M7 (by omega), A6 (by omega), K5 (by omega), C4, C3, A2, A1⟩
+
+/-! ## one case lemma per constructor -/
 macro "hnc" : tactic => `(tactic| exact headNot_cons (by simp))
 
 theorem max_le_of {a b c d : Nat} (h : max a b + d ≤ c) : a + d ≤ c ∧ b + d ≤ c := by
@@ -501,6 +771,12 @@ theorem max_le_of {a b c d : Nat} (h : max a b + d ≤ c) : a + d ≤ c ∧ b + 
 
 theorem op_tk_ne (op : Op) : op.tk ≠ .cont ∧ op.tk ≠ .lparen ∧ op.tk ≠ .other ∧ op.tk ≠ .not := by
   cases op <;> simp [Op.tk]
+
+theorem op_primStop (op : Op) (lit : String) (rest : List PTok) : PrimStop (⟨op.tk, lit⟩ :: rest) :=
+  ⟨headNot_cons (op_tk_ne op).1, headNot_cons (op_tk_ne op).2.1, headNot_cons (op_tk_ne op).2.2.1⟩
+
+theorem lem_atom (a : Atom) : Lem (G.atom a) :=
+  lem_of_P8 rfl (fun d X _ hp => by simpa [render, G.toEx] using (ev_pPrim_atom (d := d) (a := a) hp))
 
 theorem lem_mul (op : Op) (hop : op = .star ∨ op = .div ∨ op = .mod) (lit : String) (l r : G) (ihl : Lem l) (ihr : Lem r) :
     Lem (G.bin op lit l r) := by
@@ -515,8 +791,7 @@ theorem lem_mul (op : Op) (hop : op = .star ∨ op = .div ∨ op = .mod) (lit : 
     have hr := ihr.P8 d X hdr hp
     have hstep : Ev (fun f => lMul f d l.toEx (⟨op.tk, lit⟩ :: (render 8 r ++ X))) R :=
       ev_lMul_op htk (ev_mulStep (render_ne_nil 8 r X) hr h)
-    have := ihl.M7 d (⟨op.tk, lit⟩ :: (render 8 r ++ X)) R hdl
-      ⟨headNot_cons (op_tk_ne op).1, headNot_cons (op_tk_ne op).2.1⟩ hstep
+    have := ihl.M7 d (⟨op.tk, lit⟩ :: (render 8 r ++ X)) R hdl (op_primStop op lit _) hstep
     simpa [render, hsides, hprec, G.toEx, List.append_assoc] using this
   have A6 := down_A6 (by omega) M7
   have K5 := down_K5 (by omega) A6
@@ -545,8 +820,7 @@ theorem lem_add (op : Op) (hop : op = .plus ∨ op = .minus) (lit : String) (l r
       rcases htk with e | e
       · rw [e]; exact ev_lAdd_plus hr h
       · rw [e]; exact ev_lAdd_minus hr h
-    have := ihl.A6 d (⟨op.tk, lit⟩ :: (render 7 r ++ X)) R hdl
-      ⟨headNot_cons (op_tk_ne op).1, headNot_cons (op_tk_ne op).2.1⟩ (hn7 _) hstep
+    have := ihl.A6 d (⟨op.tk, lit⟩ :: (render 7 r ++ X)) R hdl (op_primStop op lit _) (hn7 _) hstep
     simpa [render, hsides, hprec, G.toEx, List.append_assoc] using this
   have K5 := down_K5 (by omega) A6
   have C4 := down_C 4 (by omega) (by omega) K5
@@ -556,113 +830,291 @@ theorem lem_add (op : Op) (hop : op = .plus ∨ op = .minus) (lit : String) (l r
   obtain ⟨P8, M7, _, _, _, _, _⟩ := up_from_A1 (by omega) A1
   exact ⟨P8, M7 (by omega), A6, K5, C4, C3, A2, A1⟩
 
-theorem lem (g : G) : Lem g := by
-  induction g with
-  | atom a =>
-    have P8 : P8T (G.atom a) := by
-      intro d X _ hp
-      simpa [render, G.toEx] using (ev_pPrim_atom (d := d) (a := a) hp)
-    have hp8 : (G.atom a).prec = 8 := rfl
-    have M7 := lift_M7 (g := G.atom a) (req (by omega) (by omega) (Or.inl ⟨by omega, by omega⟩)) P8
-    have A6 := down_A6 (by omega) M7
-    have K5 := down_K5 (by omega) A6
-    have C4 := down_C 4 (by omega) (by omega) K5
-    have C3 := down_C 3 (by omega) (by omega) K5
-    have A2 := down_A2 (by omega) C3
-    have A1 := down_A1 (by omega) A2
-    exact ⟨P8, M7, A6, K5, C4, C3, A2, A1⟩
-  | not lit e ih =>
-    have hp3 : (G.not lit e).prec = 3 := rfl
-    have C3 : CT 3 (G.not lit e) := by
-      intro d X hd hp hn
-      have hrender : render 3 (G.not lit e) = ⟨.not, lit⟩ :: render 3 e := by simp [render]
-      have hneed : need 3 (G.not lit e) = need 3 e + 1 := by simp [need]
-      rw [hneed] at hd
-      have hin := ih.C3 (d + 1) X (by omega) hp hn
-      have hprim := ev_pPrim_not (lit := lit) (render_head_not_other 3 e X) (by unfold maxDepth at *; omega) hin
-      have hmul := ev_pMul hprim (ev_lMul_stop hn.1.1.1.1 hn.1.1.1.2.1 hn.1.1.1.2.2)
-      have hadd := ev_pAdd hmul (ev_lAdd_stop hn.1.1.2.1 hn.1.1.2.2)
-      have hcat := ev_pCat hadd (ev_lCat_stop hn.1.2)
-      have := ev_pCmp_plain hcat hn.2
-      simpa [hrender, G.toEx] using this
-    have A2 := down_A2 (by omega) C3
-    have A1 := down_A1 (by omega) A2
-    obtain ⟨P8, M7, A6, K5, C4, _, _⟩ := up_from_A1 (by omega) A1
-    exact ⟨P8, M7 (by omega), A6 (by omega), K5 (by omega), C4 (by omega), C3, A2, A1⟩
-  | bin op lit l r ihl ihr =>
+theorem lem_cat (lit : String) (l r : G) (ihl : Lem l) (ihr : Lem r) : Lem (G.bin .cat lit l r) := by
+  have hp5 : (G.bin .cat lit l r).prec = 5 := rfl
+  have K5 : K5T (G.bin .cat lit l r) := by
+    intro d X R hd hp hn h
+    simp only [need, Op.sides, Op.prec, Nat.lt_irrefl, if_false] at hd
+    obtain ⟨hdl, hdr⟩ := max_le_of hd
+    have hr := ihr.A6 d X _ hdr hp hn.1 (ev_lAdd_stop hn.2.1 hn.2.2)
+    have hstep := ev_lCat_step hr h
+    have := ihl.K5 d (_ :: (render 6 r ++ X)) R hdl ⟨by hnc, by hnc, by hnc⟩ ⟨⟨by hnc, by hnc, by hnc⟩, by hnc, by hnc⟩ hstep
+    simpa [render, Op.sides, Op.tk, Op.prec, G.toEx, List.append_assoc] using this
+  have C4 := down_C 4 (by omega) (by omega) K5
+  have C3 := down_C 3 (by omega) (by omega) K5
+  have A2 := down_A2 (by omega) C3
+  have A1 := down_A1 (by omega) A2
+  obtain ⟨P8, M7, A6, _, _, _, _⟩ := up_from_A1 (by omega) A1
+  exact ⟨P8, M7 (by omega), A6 (by omega), K5, C4, C3, A2, A1⟩
+
+/-- the class facts of a comparison-level keyword (or the NOT before it) as the head of a continuation -/
+theorem kw_stops (t : PTok) (hk : t.k = .cmp ∨ t.k = .is ∨ t.k = .between ∨ t.k = .like ∨ t.k = .ilike ∨ t.k = .in_ ∨ t.k = .not ∨ t.k = .and)
+    (rest : List PTok) : PrimStop (t :: rest) ∧ N5 (t :: rest) := by
+  apply stops_of_class
+  rcases hk with h | h | h | h | h | h | h | h <;> simp [h]
+
+theorem negkw_stops (neg : Option String) (kw : PTok) (hk : kw.k = .between ∨ kw.k = .like ∨ kw.k = .ilike ∨ kw.k = .in_)
+    (rest : List PTok) : PrimStop (negToks neg ++ kw :: rest) ∧ N5 (negToks neg ++ kw :: rest) := by
+  cases neg with
+  | none =>
+    simp only [negToks, List.nil_append]
+    exact kw_stops kw (by rcases hk with h | h | h | h <;> simp [h]) rest
+  | some nl =>
+    simp only [negToks, List.cons_append, List.nil_append]
+    exact kw_stops ⟨.not, nl⟩ (by simp) _
+
+theorem lem_cmp (lit : String) (hpl : plainLit lit = true) (l r : G) (ihl : Lem l) (ihr : Lem r) : Lem (G.bin .cmp lit l r) := by
+  have C : ∀ k, k = 3 ∨ k = 4 → CT k (G.bin .cmp lit l r) := by
+    intro k hk d X hd hp hn
+    have hneed : need k (G.bin .cmp lit l r) = max (need 5 l) (need 5 r) := by
+      rcases hk with rfl | rfl <;> simp [need, Op.sides, Op.prec]
+    rw [hneed] at hd
+    obtain ⟨hdl, hdr⟩ := max_le_of hd
+    have s := kw_stops ⟨.cmp, lit⟩ (Or.inl rfl) (render 5 r ++ X)
+    have h1 := ihl.K5 d (⟨.cmp, lit⟩ :: (render 5 r ++ X)) _ hdl s.1 s.2.1 (ev_lCat_stop s.2.2)
+    have h2 := ihr.K5 d X _ hdr hp hn.1.1 (ev_lCat_stop hn.1.2)
+    have := ev_pCmp h1 (ev_pTail_cmp hpl h2)
+    rcases hk with rfl | rfl <;> simpa [render, Op.sides, Op.tk, Op.prec, G.toEx, List.append_assoc] using this
+  exact lem_of_C rfl (C 3 (Or.inl rfl)) (C 4 (Or.inr rfl))
+
+theorem and_stops (lit : String) (hpl : plainLit lit = true) (rest : List PTok) :
+    PrimStop (⟨.and, lit⟩ :: rest) ∧ N4 (⟨.and, lit⟩ :: rest) := by
+  have s := kw_stops ⟨.and, lit⟩ (by simp) rest
+  exact ⟨s.1, s.2, cmpStop_of_class rest (by simp) hpl⟩
+
+theorem lem_and (lit : String) (hpl : plainLit lit = true) (l r : G) (ihl : Lem l) (ihr : Lem r) : Lem (G.bin .and lit l r) := by
+  have hp2 : (G.bin .and lit l r).prec = 2 := rfl
+  have A2 : A2T (G.bin .and lit l r) := by
+    intro d X R hd hp hn h
+    simp only [need, Op.sides, Op.prec, Nat.lt_irrefl, if_false] at hd
+    obtain ⟨hdl, hdr⟩ := max_le_of hd
+    have hr := ihr.C3 d X hdr hp hn
+    have hstep := ev_lAnd_step hr h
+    have s := and_stops lit hpl (render 3 r ++ X)
+    have := ihl.A2 d (_ :: (render 3 r ++ X)) R hdl s.1 s.2 hstep
+    simpa [render, Op.sides, Op.tk, Op.prec, G.toEx, List.append_assoc] using this
+  have A1 := down_A1 (by omega) A2
+  obtain ⟨P8, M7, A6, K5, C4, C3, _⟩ := up_from_A1 (by omega) A1
+  exact ⟨P8, M7 (by omega), A6 (by omega), K5 (by omega), C4 (by omega), C3 (by omega), A2, A1⟩
+
+theorem lem_or (lit : String) (hpl : plainLit lit = true) (l r : G) (ihl : Lem l) (ihr : Lem r) : Lem (G.bin .or lit l r) := by
+  have hp1 : (G.bin .or lit l r).prec = 1 := rfl
+  have A1 : A1T (G.bin .or lit l r) := by
+    intro d X R hd hp hn h
+    simp only [need, Op.sides, Op.prec, Nat.lt_irrefl, if_false] at hd
+    obtain ⟨hdl, hdr⟩ := max_le_of hd
+    have hr := ihr.A2 d X _ hdr hp hn.1 (ev_lAnd_stop hn.2)
+    have hstep := ev_lOr_step hr h
+    have s := stops_of_class (t := ⟨.or, lit⟩) (render 2 r ++ X) (by simp)
+    have c := cmpStop_of_class (t := ⟨.or, lit⟩) (render 2 r ++ X) (by simp) hpl
+    have := ihl.A1 d (_ :: (render 2 r ++ X)) R hdl s.1 ⟨⟨s.2, c⟩, by hnc⟩ hstep
+    simpa [render, Op.sides, Op.tk, Op.prec, G.toEx, List.append_assoc] using this
+  obtain ⟨P8, M7, A6, K5, C4, C3, A2⟩ := up_from_A1 (by omega) A1
+  exact ⟨P8, M7 (by omega), A6 (by omega), K5 (by omega), C4 (by omega), C3 (by omega), A2 (by omega), A1⟩
+
+theorem lem_not (lit : String) (e : G) (ih : Lem e) : Lem (G.not lit e) := by
+  have hp3 : (G.not lit e).prec = 3 := rfl
+  have C3 : CT 3 (G.not lit e) := by
+    intro d X hd hp hn
+    have hrender : render 3 (G.not lit e) = ⟨.not, lit⟩ :: render 3 e := by simp [render]
+    have hneed : need 3 (G.not lit e) = need 3 e + 1 := by simp [need]
+    rw [hneed] at hd
+    have hin := ih.C3 (d + 1) X (by omega) hp hn
+    have hprim := ev_pPrim_not (lit := lit) (render_head_not_other 3 e X) (by unfold maxDepth at *; omega) hin
+    have hmul := ev_pMul hprim (ev_lMul_stop hn.1.1.1.1 hn.1.1.1.2.1 hn.1.1.1.2.2)
+    have hadd := ev_pAdd hmul (ev_lAdd_stop hn.1.1.2.1 hn.1.1.2.2)
+    have hcat := ev_pCat hadd (ev_lCat_stop hn.1.2)
+    have := ev_pCmp hcat (ev_pTail_stop hn.2)
+    simpa [hrender, G.toEx] using this
+  have A2 := down_A2 (by omega) C3
+  have A1 := down_A1 (by omega) A2
+  obtain ⟨P8, M7, A6, K5, C4, _, _⟩ := up_from_A1 (by omega) A1
+  exact ⟨P8, M7 (by omega), A6 (by omega), K5 (by omega), C4 (by omega), C3, A2, A1⟩
+
+/-! ### predicates -/
+theorem pIs_ok (l : Ex) (neg : Option String) (nl : String) (X : List PTok) :
+    pIs l (negToks neg ++ ⟨.null, nl⟩ :: X) = .ok (.isnull neg.isSome l) X := by
+  cases neg <;> simp [negToks, pIs]
+
+theorem lem_isnull (isLit : String) (neg : Option String) (nullLit : String) (e : G) (hpl : plainLit isLit = true) (ih : Lem e) :
+    Lem (G.isnull isLit neg nullLit e) := by
+  have C : ∀ k, k = 3 ∨ k = 4 → CT k (G.isnull isLit neg nullLit e) := by
+    intro k hk d X hd hp hn
+    have hneed : need k (G.isnull isLit neg nullLit e) = need 5 e := by rcases hk with rfl | rfl <;> simp [need]
+    rw [hneed] at hd
+    have s := kw_stops ⟨.is, isLit⟩ (by simp) (negToks neg ++ ⟨.null, nullLit⟩ :: X)
+    have h1 := ih.K5 d (⟨.is, isLit⟩ :: (negToks neg ++ ⟨.null, nullLit⟩ :: X)) _ hd s.1 s.2.1 (ev_lCat_stop s.2.2)
+    have h2 : Ev (fun f => pTail f d e.toEx (⟨.is, isLit⟩ :: (negToks neg ++ ⟨.null, nullLit⟩ :: X))) (.ok (.isnull neg.isSome e.toEx) X) := by
+      have := ev_pTail_is (d := d) (l := e.toEx) (ts := negToks neg ++ ⟨.null, nullLit⟩ :: X) hpl
+      rwa [pIs_ok] at this
+    have := ev_pCmp h1 h2
+    rcases hk with rfl | rfl <;> simpa [render, G.toEx, List.append_assoc] using this
+  exact lem_of_C rfl (C 3 (Or.inl rfl)) (C 4 (Or.inr rfl))
+
+theorem lem_between (neg : Option String) (bLit andLit : String) (e lo hi : G)
+    (hneg : neg = none ∨ isWord bLit "BETWEEN" = true) (ihe : Lem e) (ihlo : Lem lo) (ihhi : Lem hi) :
+    Lem (G.between neg bLit andLit e lo hi) := by
+  have C : ∀ k, k = 3 ∨ k = 4 → CT k (G.between neg bLit andLit e lo hi) := by
+    intro k hk d X hd hp hn
+    have hneed : need k (G.between neg bLit andLit e lo hi) = max (need 5 e) (max (need 5 lo) (need 5 hi)) := by
+      rcases hk with rfl | rfl <;> simp [need]
+    rw [hneed] at hd
+    obtain ⟨hde, hd2⟩ := max_le_of hd
+    obtain ⟨hdlo, hdhi⟩ := max_le_of hd2
+    have hhi := ihhi.K5 d X _ hdhi hp hn.1.1 (ev_lCat_stop hn.1.2)
+    have sa := kw_stops ⟨.and, andLit⟩ (by simp) (render 5 hi ++ X)
+    have hlo := ihlo.K5 d (⟨.and, andLit⟩ :: (render 5 hi ++ X)) _ hdlo sa.1 sa.2.1 (ev_lCat_stop sa.2.2)
+    have hb := ev_pBetween (neg := neg.isSome) (l := e.toEx) hlo hhi
+    have hnok : NegOK neg ⟨.between, bLit⟩ := by
+      rcases hneg with h | h
+      · exact Or.inl h
+      · exact Or.inr (by simp [notLookahead, h])
+    have ht := ev_pTail_pred (d := d) (l := e.toEx) (kw := ⟨.between, bLit⟩) (by simp) hnok (ev_pPred_between hb)
+    have s := negkw_stops neg ⟨.between, bLit⟩ (Or.inl rfl) (render 5 lo ++ ⟨.and, andLit⟩ :: (render 5 hi ++ X))
+    have h1 := ihe.K5 d _ _ hde s.1 s.2.1 (ev_lCat_stop s.2.2)
+    have := ev_pCmp h1 ht
+    rcases hk with rfl | rfl <;> simpa [render, G.toEx, List.append_assoc] using this
+  exact lem_of_C rfl (C 3 (Or.inl rfl)) (C 4 (Or.inr rfl))
+
+theorem lem_like (neg : Option String) (op : PTok) (e pat : G)
+    (hop : op.k = .like ∨ (op.k = .ilike ∧ isWord op.lit "ILIKE" = true))
+    (hneg : neg = none ∨ isWord op.lit "LIKE" = true ∨ isWord op.lit "ILIKE" = true) (ihe : Lem e) (ihp : Lem pat) :
+    Lem (G.like neg op e pat) := by
+  have hk1 : op.k ≠ .not := by rcases hop with h | ⟨h, _⟩ <;> simp [h]
+  have hk2 : op.k ≠ .between := by rcases hop with h | ⟨h, _⟩ <;> simp [h]
+  have hl : isLikeOp op = true := by rcases hop with h | ⟨_, h⟩ <;> simp [isLikeOp, h]
+  have C : ∀ k, k = 3 ∨ k = 4 → CT k (G.like neg op e pat) := by
+    intro k hk d X hd hp hn
+    have hneed : need k (G.like neg op e pat) = max (need 5 e) (need 8 pat) := by rcases hk with rfl | rfl <;> simp [need]
+    rw [hneed] at hd
+    obtain ⟨hde, hdp⟩ := max_le_of hd
+    have hpat := ihp.P8 d X hdp hp
+    have hnok : NegOK neg op := by
+      rcases hneg with h | h | h
+      · exact Or.inl h
+      · exact Or.inr (by simp [notLookahead, h])
+      · exact Or.inr (by simp [notLookahead, h])
+    have ht := ev_pTail_pred (d := d) (l := e.toEx) (kw := op) hk1 hnok (ev_pPred_like hk2 hl (ev_pLike hpat))
+    have s := negkw_stops neg op (by rcases hop with h | ⟨h, _⟩ <;> simp [h]) (render 8 pat ++ X)
+    have h1 := ihe.K5 d _ _ hde s.1 s.2.1 (ev_lCat_stop s.2.2)
+    have := ev_pCmp h1 ht
+    rcases hk with rfl | rfl <;> simpa [render, G.toEx, List.append_assoc] using this
+  exact lem_of_C rfl (C 3 (Or.inl rfl)) (C 4 (Or.inr rfl))
+
+/-- the items of a parenthesised IN list after the first -/
+theorem inlist_items : (rest : GL) → (g : G) → Lem g → LemL rest → ∀ d X, max (need 1 g + 1) (needL rest) + d ≤ maxDepth →
+    EvL (fun f => pInList f d (render 1 g ++ (renderMore rest ++ rp :: X))) (.ok (.cons g.toEx rest.toExL) X)
+  | .nil, g, hg, _, d, X, hd => by
+    have := evL_pInList_last (item_expr hg.A1 d rp (Or.inl rfl) rp_plain X (by simp only [needL] at hd; omega))
+    simpa [renderMore, GL.toExL, rp] using this
+  | .cons g' rest', g, hg, hr, d, X, hd => by
+    simp only [needL] at hd
+    obtain ⟨h1, h2⟩ := max_le_of hd
+    have ih := inlist_items rest' g' hr.1 hr.2 d X h2
+    have hi := item_expr hg.A1 d comma (Or.inr rfl) comma_plain (render 1 g' ++ (renderMore rest' ++ rp :: X)) (by omega)
+    have := evL_pInList_cons hi ih
+    simpa [renderMore, GL.toExL, comma, List.append_assoc] using this
+
+theorem lem_inlist (neg : Option String) (inLit : String) (e first : G) (rest : GL)
+    (hpl : plainLit inLit = true) (hneg : neg = none ∨ isWord inLit "IN" = true)
+    (ihe : Lem e) (ihf : Lem first) (ihr : LemL rest) : Lem (G.inlist neg inLit e first rest) := by
+  have C : ∀ k, k = 3 ∨ k = 4 → CT k (G.inlist neg inLit e first rest) := by
+    intro k hk d X hd hp hn
+    have hneed : need k (G.inlist neg inLit e first rest) = max (need 5 e) (max (need 1 first + 1) (needL rest)) := by
+      rcases hk with rfl | rfl <;> simp [need]
+    rw [hneed] at hd
+    obtain ⟨hde, hdi⟩ := max_le_of hd
+    have hitems := inlist_items rest first ihf ihr d X hdi
+    have hin := ev_pIn (neg := neg.isSome) (l := e.toEx) (plit := "(")
+      (render_head_not_other 1 first (renderMore rest ++ rp :: X)) hitems
+    have hnok : NegOK neg ⟨.in_, inLit⟩ := by
+      rcases hneg with h | h
+      · exact Or.inl h
+      · exact Or.inr (by simp [notLookahead, h])
+    have ht := ev_pTail_pred (d := d) (l := e.toEx) (kw := ⟨.in_, inLit⟩) (by simp) hnok (ev_pPred_in hpl hin)
+    have s := negkw_stops neg ⟨.in_, inLit⟩ (by simp) (lp :: (render 1 first ++ (renderMore rest ++ rp :: X)))
+    have h1 := ihe.K5 d _ _ hde s.1 s.2.1 (ev_lCat_stop s.2.2)
+    have := ev_pCmp h1 ht
+    rcases hk with rfl | rfl <;> simpa [render, G.toEx, GL.toExL, lp, List.append_assoc] using this
+  exact lem_of_C rfl (C 3 (Or.inl rfl)) (C 4 (Or.inr rfl))
+
+/-! ### calls -/
+theorem args_items : (rest : GL) → (g : G) → Lem g → LemL rest → ∀ d X, max (need 1 g + 1) (needL rest) + d ≤ maxDepth →
+    EvL (fun f => pArgs f d (render 1 g ++ (renderMore rest ++ rp :: X))) (.ok (.cons g.toEx rest.toExL) X)
+  | .nil, g, hg, _, d, X, hd => by
+    have := evL_pArgs_last (render_head_not_other 1 g (rp :: X))
+      (item_expr hg.A1 d rp (Or.inl rfl) rp_plain X (by simp only [needL] at hd; omega))
+    simpa [renderMore, GL.toExL, rp] using this
+  | .cons g' rest', g, hg, hr, d, X, hd => by
+    simp only [needL] at hd
+    obtain ⟨h1, h2⟩ := max_le_of hd
+    have ih := args_items rest' g' hr.1 hr.2 d X h2
+    have hi := item_expr hg.A1 d comma (Or.inr rfl) comma_plain (render 1 g' ++ (renderMore rest' ++ rp :: X)) (by omega)
+    have := evL_pArgs_cons (render_head_not_other 1 g (comma :: (render 1 g' ++ (renderMore rest' ++ rp :: X)))) hi ih
+    simpa [renderMore, GL.toExL, comma, List.append_assoc] using this
+
+theorem lem_call (n : String) (args : GL) (hn : isWord n "MATCH" = false) (ih : LemL args) : Lem (G.call n args) := by
+  refine lem_of_P8 rfl ?_
+  intro d X hd hp
+  cases args with
+  | nil =>
+    have := ev_pPrim_call0 (d := d) (n := n) (l1 := "(") (l2 := ")") (X := X)
+    rw [afterCall_ok hn hp] at this
+    simpa [render, renderArgs, G.toEx, GL.toExL, lp, rp] using this
+  | cons g rest =>
+    have hd' : max (need 1 g + 1) (needL rest) + d ≤ maxDepth := by simpa [need, needL] using hd
+    have hitems := args_items rest g ih.1 ih.2 d X hd'
+    have := ev_pPrim_call (n := n) (l1 := "(") (render_head_not_rparen 1 g (renderMore rest ++ rp :: X)) hitems
+    rw [afterCall_ok hn hp] at this
+    simpa [render, renderArgs, G.toEx, GL.toExL, lp, List.append_assoc] using this
+
+/-! ## assembling: structural recursion over the grammar -/
+mutual
+theorem lem : (g : G) → g.WF = true → Lem g
+  | .atom a, _ => lem_atom a
+  | .call n args, h => by
+    simp only [G.WF, Bool.and_eq_true, Bool.not_eq_true'] at h
+    exact lem_call n args h.1 (lemL args h.2)
+  | .bin op lit l r, h => by
+    simp only [G.WF, Bool.and_eq_true] at h
+    have ihl := lem l h.1.2
+    have ihr := lem r h.2
     cases op with
     | star => exact lem_mul .star (by simp) lit l r ihl ihr
     | div => exact lem_mul .div (by simp) lit l r ihl ihr
     | mod => exact lem_mul .mod (by simp) lit l r ihl ihr
     | plus => exact lem_add .plus (by simp) lit l r ihl ihr
     | minus => exact lem_add .minus (by simp) lit l r ihl ihr
-    | cat =>
-      have hp5 : (G.bin .cat lit l r).prec = 5 := rfl
-      have K5 : K5T (G.bin .cat lit l r) := by
-        intro d X R hd hp hn h
-        simp only [need, Op.sides, Op.prec, Nat.lt_irrefl, if_false] at hd
-        obtain ⟨hdl, hdr⟩ := max_le_of hd
-        have hr := ihr.A6 d X _ hdr hp hn.1 (ev_lAdd_stop hn.2.1 hn.2.2)
-        have hstep := ev_lCat_step hr h
-        have := ihl.K5 d (_ :: (render 6 r ++ X)) R hdl ⟨by hnc, by hnc⟩ ⟨⟨by hnc, by hnc, by hnc⟩, by hnc, by hnc⟩ hstep
-        simpa [render, Op.sides, Op.tk, Op.prec, G.toEx, List.append_assoc] using this
-      have C4 := down_C 4 (by omega) (by omega) K5
-      have C3 := down_C 3 (by omega) (by omega) K5
-      have A2 := down_A2 (by omega) C3
-      have A1 := down_A1 (by omega) A2
-      obtain ⟨P8, M7, A6, _, _, _, _⟩ := up_from_A1 (by omega) A1
-      exact ⟨P8, M7 (by omega), A6 (by omega), K5, C4, C3, A2, A1⟩
-    | cmp =>
-      have hp4 : (G.bin .cmp lit l r).prec = 4 := rfl
-      have C : ∀ k, k = 3 ∨ k = 4 → CT k (G.bin .cmp lit l r) := by
-        intro k hk d X hd hp hn
-        have hneed : need k (G.bin .cmp lit l r) = max (need 5 l) (need 5 r) := by
-          rcases hk with rfl | rfl <;> simp [need, Op.sides, Op.prec]
-        rw [hneed] at hd
-        obtain ⟨hdl, hdr⟩ := max_le_of hd
-        have h1 := ihl.K5 d (⟨.cmp, lit⟩ :: (render 5 r ++ X)) _ hdl ⟨by hnc, by hnc⟩
-          ⟨⟨by hnc, by hnc, by hnc⟩, by hnc, by hnc⟩ (ev_lCat_stop (by hnc))
-        have h2 := ihr.K5 d X _ hdr hp hn.1.1 (ev_lCat_stop hn.1.2)
-        have := ev_pCmp_cmp h1 h2
-        rcases hk with rfl | rfl <;> simpa [render, Op.sides, Op.tk, Op.prec, G.toEx, List.append_assoc] using this
-      have C3 := C 3 (Or.inl rfl)
-      have C4 := C 4 (Or.inr rfl)
-      have A2 := down_A2 (by omega) C3
-      have A1 := down_A1 (by omega) A2
-      obtain ⟨P8, M7, A6, K5, _, _, _⟩ := up_from_A1 (by omega) A1
-      exact ⟨P8, M7 (by omega), A6 (by omega), K5 (by omega), C4, C3, A2, A1⟩
-    | and =>
-      have hp2 : (G.bin .and lit l r).prec = 2 := rfl
-      have A2 : A2T (G.bin .and lit l r) := by
-        intro d X R hd hp hn h
-        simp only [need, Op.sides, Op.prec, Nat.lt_irrefl, if_false] at hd
-        obtain ⟨hdl, hdr⟩ := max_le_of hd
-        have hr := ihr.C3 d X hdr hp hn
-        have hstep := ev_lAnd_step hr h
-        have := ihl.A2 d (_ :: (render 3 r ++ X)) R hdl ⟨by hnc, by hnc⟩
-          ⟨⟨⟨⟨by hnc, by hnc, by hnc⟩, by hnc, by hnc⟩, by hnc⟩, ⟨by hnc, by hnc, by hnc, by hnc⟩⟩ hstep
-        simpa [render, Op.sides, Op.tk, Op.prec, G.toEx, List.append_assoc] using this
-      have A1 := down_A1 (by omega) A2
-      obtain ⟨P8, M7, A6, K5, C4, C3, _⟩ := up_from_A1 (by omega) A1
-      exact ⟨P8, M7 (by omega), A6 (by omega), K5 (by omega), C4 (by omega), C3 (by omega), A2, A1⟩
-    | or =>
-      have hp1 : (G.bin .or lit l r).prec = 1 := rfl
-      have A1 : A1T (G.bin .or lit l r) := by
-        intro d X R hd hp hn h
-        simp only [need, Op.sides, Op.prec, Nat.lt_irrefl, if_false] at hd
-        obtain ⟨hdl, hdr⟩ := max_le_of hd
-        have hr := ihr.A2 d X _ hdr hp hn.1 (ev_lAnd_stop hn.2)
-        have hstep := ev_lOr_step hr h
-        have := ihl.A1 d (_ :: (render 2 r ++ X)) R hdl ⟨by hnc, by hnc⟩
-          ⟨⟨⟨⟨⟨by hnc, by hnc, by hnc⟩, by hnc, by hnc⟩, by hnc⟩, ⟨by hnc, by hnc, by hnc, by hnc⟩⟩, by hnc⟩ hstep
-        simpa [render, Op.sides, Op.tk, Op.prec, G.toEx, List.append_assoc] using this
-      obtain ⟨P8, M7, A6, K5, C4, C3, A2⟩ := up_from_A1 (by omega) A1
-      exact ⟨P8, M7 (by omega), A6 (by omega), K5 (by omega), C4 (by omega), C3 (by omega), A2 (by omega), A1⟩
+    | cat => exact lem_cat lit l r ihl ihr
+    | cmp => exact lem_cmp lit h.1.1 l r ihl ihr
+    | and => exact lem_and lit h.1.1 l r ihl ihr
+    | or => exact lem_or lit h.1.1 l r ihl ihr
+  | .not lit e, h => by
+    simp only [G.WF] at h
+    exact lem_not lit e (lem e h)
+  | .isnull isLit neg nullLit e, h => by
+    simp only [G.WF, Bool.and_eq_true] at h
+    exact lem_isnull isLit neg nullLit e h.1 (lem e h.2)
+  | .between neg bLit andLit e lo hi, h => by
+    simp only [G.WF, Bool.and_eq_true, Bool.or_eq_true, Option.isNone_iff_eq_none] at h
+    exact lem_between neg bLit andLit e lo hi h.1.1.1.1 (lem e h.1.1.2) (lem lo h.1.2) (lem hi h.2)
+  | .like neg op e pat, h => by
+    simp only [G.WF, Bool.and_eq_true, Bool.or_eq_true, Option.isNone_iff_eq_none, beq_iff_eq] at h
+    exact lem_like neg op e pat h.1.1.1 (by rcases h.1.1.2 with (h' | h') | h' <;> simp [h']) (lem e h.1.2) (lem pat h.2)
+  | .inlist neg inLit e first rest, h => by
+    simp only [G.WF, Bool.and_eq_true, Bool.or_eq_true, Option.isNone_iff_eq_none] at h
+    exact lem_inlist neg inLit e first rest h.1.1.1.1 h.1.1.1.2 (lem e h.1.1.2) (lem first h.1.2) (lemL rest h.2)
+theorem lemL : (l : GL) → l.WFL = true → LemL l
+  | .nil, _ => trivial
+  | .cons g rest, h => by
+    simp only [GL.WFL, Bool.and_eq_true] at h
+    exact ⟨lem g h.1, lemL rest h.2⟩
+end
 
-/-- **C03 (expression ladder)**: every model expression, written with the parentheses precedence requires, parses back
-    to itself — for every continuation that starts no operator and enough room under the depth limit -/
-theorem parse_render (g : G) (X : List PTok) (hp : PrimStop X) (hn : N1 X) (hd : need 1 g + 1 ≤ maxDepth) :
+/-- **C03 (expression ladder)**: every well-formed model expression, written with the parentheses precedence requires,
+    parses back to itself — for every continuation that starts no operator and enough room under the depth limit -/
+theorem parse_render (g : G) (hw : g.WF = true) (X : List PTok) (hp : PrimStop X) (hn : N1 X) (hd : need 1 g + 1 ≤ maxDepth) :
     ∃ f0, ∀ f, f0 ≤ f → pExpr f 0 (render 1 g ++ X) = .ok g.toEx X :=
-  ev_pExpr (by unfold maxDepth at *; omega) ((lem g).A1 1 X _ (by omega) hp hn.1 (ev_lOr_stop hn.2))
+  ev_pExpr (by unfold maxDepth at *; omega) ((lem g hw).A1 1 X _ (by omega) hp hn.1 (ev_lOr_stop hn.2))
 
 end GoSQLXModel.ExprParse
